@@ -98,6 +98,8 @@ class Gen(object):
         r = self.rng.random()
         if r < 0.85:
             return g
+        if r < 0.89:
+            return 0          # the generation every client saw first (and a value that is false in Python)
         return max(0, g + self.rng.choice([-1, 1, -2]))
 
     def any_rp(self, v, existing=0.9):
